@@ -135,13 +135,16 @@ BASES = {
         {"name": "b", "type": {"type": "bytes", "logicalType": "decimal", "precision": 5, "scale": 2}},
         {"name": "x", "type": {"type": "fixed", "name": "FX", "size": 2, "logicalType": "decimal", "precision": 4, "scale": 0}},
     ]},
-    "defaults": {"type": "record", "name": "Df", "fields": [
+    "defaults": {"type": "record", "name": "Df", "namespace": "shop", "fields": [
         {"name": "d1", "type": "double", "default": 1.5},
         {"name": "d2", "type": {"type": "double"}, "default": 2.5},
         {"name": "s", "type": "string", "default": "x"},
         {"name": "l", "type": {"type": "long"}, "default": 7},
         {"name": "r", "type": {"type": "record", "name": "Inner", "fields": [{"name": "k", "type": "int"}]}, "default": {"k": 1}},
         {"name": "un", "type": ["int", "string", "Inner"], "default": 5},
+        {"name": "st", "type": {"type": "enum", "name": "State", "symbols": ["NEW", "OLD"]}, "default": "NEW"},
+        {"name": "un2", "type": ["null", "State"], "default": None},
+        {"name": "un3", "type": ["shop.State", "null", {"type": "map", "values": "Inner"}], "default": "OLD"},
     ]},
 }
 
